@@ -6,7 +6,7 @@ from hypothesis import strategies as st
 from ..core import Failure
 
 ID = "C14"
-BUDGET = {"quick": 1500, "thorough": 3000}
+BUDGET = {"quick": 1500, "thorough": 6000}
 NO_SHRINK = False
 EXHAUSTIVE = False
 EXHAUSTIVE_PARTS = (
